@@ -34,7 +34,32 @@ func fileMethodCalls(g *ssax.Graph, f ssa.Value) map[string][]*ssa.Call {
 			out[strings.TrimPrefix(n, "(*os.File).")] = append(out[strings.TrimPrefix(n, "(*os.File).")], c)
 		}
 	}
+	// the file held in an interface variable (var w io.Writer = f; w.Write(b)) is the same file
+	for _, r := range ssax.Referrers(f) {
+		mi, ok := r.(*ssa.MakeInterface)
+		if !ok {
+			continue
+		}
+		for _, r2 := range ssax.Referrers(mi) {
+			c, ok := r2.(*ssa.Call)
+			if ok && g.Live(c) && c.Call.IsInvoke() && c.Call.Value == ssa.Value(mi) {
+				out[c.Call.Method.Name()] = append(out[c.Call.Method.Name()], c)
+			}
+		}
+	}
 	return out
+}
+
+// methodArg returns argument k (not counting the receiver) of a method call,
+// whether it is a static call or an interface invoke.
+func methodArg(c *ssa.Call, k int) ssa.Value {
+	if !c.Call.IsInvoke() {
+		k++
+	}
+	if k < len(c.Call.Args) {
+		return c.Call.Args[k]
+	}
+	return nil
 }
 
 func errOf(c *ssa.Call) ssa.Value {
@@ -287,7 +312,7 @@ func runC12(ctx *core.Ctx) {
 				k, ok := ssax.ConstInt(mk.Len)
 				one = ok && k == 1
 			}
-			ctx.Check(one && w.Call.Args[1] == buf, "P1", "cache.copyFile#last-byte", w.Pos(), "the committing write writes the one-byte buffer that was read last (one-byte buffer=%v, same buffer=%v)", one, w.Call.Args[1] == buf)
+			ctx.Check(one && methodArg(w, 0) == buf, "P1", "cache.copyFile#last-byte", w.Pos(), "the committing write writes the one-byte buffer that was read last (one-byte buffer=%v, same buffer=%v)", one, methodArg(w, 0) == buf)
 			// hash: h.Write(buf) between read and Sum; Equal(sum, out[:])
 			hashed := false
 			var sum *ssa.Call
